@@ -67,7 +67,7 @@ CORRUPTIONS = ["flip-quote", "flip-quote-report-data", "flip-quote-signature", "
                "wrong-root-extra-targets", "flip-x509-extra-targets",
                "attacker-chain-with-own-root-embedded", "attacker-chain-with-own-root-embedded",
                "cert-by-key-of-another-algorithm", "cert-by-key-of-another-algorithm",
-               "att-message-extended"]
+               "att-message-extended", "cert-with-unknown-signature-algorithm"]
 
 
 # process time zones of the shards (None: as inherited, UTC in this sandbox): validity is a
@@ -264,6 +264,13 @@ def corrupt(rng, m, doc, kind):
         # bytes appended to the signed quote without re-signing
         q["message"] = q["message"] + "00"
         return d, root, "quote"
+    if kind == "cert-with-unknown-signature-algorithm":
+        i = rng.randrange(len(certs))
+        body = g.unknown_signature_oid(certs[i]["message"])
+        if body is None:
+            return None
+        certs[i]["message"] = body
+        return d, root, certs[i]["name"]
     if kind == "att-message-extended":
         # bytes appended to the QE report body without re-signing: the signature is one
         # of the message as it was, not of the message as it is
